@@ -7,8 +7,8 @@ import (
 	"context"
 	"errors"
 	"fmt"
+	"math/rand/v2"
 	"reflect"
-	"sort"
 	"strings"
 	"testing"
 
@@ -25,33 +25,138 @@ import (
 
 // sigAdapter hides the four signal types behind `any` payloads.
 type sigAdapter struct {
-	name    string
-	newData func() any
-	marshal func(any) []byte
-	attrs   func(any) pcommon.Map // resource attributes of the first resource (where tags are written)
-	markRO  func(any)
-	isRO    func(any) bool
+	name string
+	// a random payload (1-3 resources, nested attribute values, several item kinds); resource 0 / scope 0 / item 0 always carry
+	// the containers the mutation sites need ("nest" map, "arr" slice, a primitive slice)
+	newData   func(seed uint64) any
+	marshal   func(any) []byte
+	unmarshal func([]byte) any
+	// mutate the payload at one of nSites places (resource attribute, scope attribute, a map nested in an item attribute,
+	// a scalar field of the last item, a new resource, a primitive / nested slice of item 0); every site CHANGES the content
+	mutate func(d any, site int, tag string)
+	markRO func(any)
+	isRO   func(any) bool
 	// build a fan-out over consumers with the given capabilities; cb is invoked for every call
 	build func(caps []bool, cb func(i int, d any) error) (consume func(context.Context, any) error, mutates bool)
 }
 
+const nSites = 6
+
 func ptrOf(d any) uintptr { return reflect.ValueOf(d).Field(0).Pointer() }
+
+func c06Rand(seed uint64) *rand.Rand { return rand.New(rand.NewPCG(seed, 0xc06)) }
+
+// fillValue puts a random value (scalars, bytes, nested map / slice up to depth 2) into v
+func fillValue(v pcommon.Value, r *rand.Rand, depth int) {
+	switch k := r.IntN(7); {
+	case k == 0:
+		v.SetStr(fmt.Sprintf("s%d", r.IntN(1000)))
+	case k == 1:
+		v.SetInt(int64(r.IntN(1000)) - 500)
+	case k == 2:
+		v.SetDouble(float64(r.IntN(1000)) / 8)
+	case k == 3:
+		v.SetBool(r.IntN(2) == 0)
+	case k == 4:
+		v.SetEmptyBytes().FromRaw([]byte{byte(r.IntN(256)), byte(r.IntN(256))})
+	case k == 5 && depth < 2:
+		m := v.SetEmptyMap()
+		for i, n := 0, r.IntN(3); i < n; i++ {
+			fillValue(m.PutEmpty(fmt.Sprintf("m%d", i)), r, depth+1)
+		}
+	case k == 6 && depth < 2:
+		sl := v.SetEmptySlice()
+		for i, n := 0, r.IntN(3); i < n; i++ {
+			fillValue(sl.AppendEmpty(), r, depth+1)
+		}
+	default:
+		v.SetStr("d")
+	}
+}
+
+func fillAttrs(m pcommon.Map, r *rand.Rand, anchors bool) {
+	m.PutStr("k", "v")
+	for i, n := 0, r.IntN(4); i < n; i++ {
+		fillValue(m.PutEmpty(fmt.Sprintf("x%d", i)), r, 0)
+	}
+	if anchors {
+		fillValue(m.PutEmptyMap("nest").PutEmpty("in"), r, 1)
+		fillValue(m.PutEmptySlice("arr").AppendEmpty(), r, 1)
+	}
+}
+
+func mustMap(m pcommon.Map, key string) pcommon.Map {
+	v, ok := m.Get(key)
+	if !ok {
+		panic("harness: anchor " + key + " missing")
+	}
+	return v.Map()
+}
+
+func mustSlice(m pcommon.Map, key string) pcommon.Slice {
+	v, ok := m.Get(key)
+	if !ok {
+		panic("harness: anchor " + key + " missing")
+	}
+	return v.Slice()
+}
 
 func adapters() []sigAdapter {
 	return []sigAdapter{
 		{
 			name: "logs",
-			newData: func() any {
+			newData: func(seed uint64) any {
+				r := c06Rand(seed)
 				ld := plog.NewLogs()
-				rl := ld.ResourceLogs().AppendEmpty()
-				rl.Resource().Attributes().PutStr("k", "v")
-				rl.ScopeLogs().AppendEmpty().LogRecords().AppendEmpty().Body().SetStr("b")
+				for ri, nr := 0, 1+r.IntN(3); ri < nr; ri++ {
+					rl := ld.ResourceLogs().AppendEmpty()
+					fillAttrs(rl.Resource().Attributes(), r, false)
+					for si, ns := 0, 1+r.IntN(2); si < ns; si++ {
+						sl := rl.ScopeLogs().AppendEmpty()
+						sl.Scope().SetName(fmt.Sprintf("scope%d", si))
+						fillAttrs(sl.Scope().Attributes(), r, false)
+						for li, nl := 0, 1+r.IntN(3); li < nl; li++ {
+							lr := sl.LogRecords().AppendEmpty()
+							fillValue(lr.Body(), r, 0)
+							lr.SetSeverityNumber(plog.SeverityNumber(r.IntN(24)))
+							fillAttrs(lr.Attributes(), r, ri == 0 && si == 0 && li == 0)
+						}
+					}
+				}
 				return ld
 			},
 			marshal: func(d any) []byte { b, _ := (&plog.ProtoMarshaler{}).MarshalLogs(d.(plog.Logs)); return b },
-			attrs:   func(d any) pcommon.Map { return d.(plog.Logs).ResourceLogs().At(0).Resource().Attributes() },
-			markRO:  func(d any) { d.(plog.Logs).MarkReadOnly() },
-			isRO:    func(d any) bool { return d.(plog.Logs).IsReadOnly() },
+			unmarshal: func(b []byte) any {
+				d, err := (&plog.ProtoUnmarshaler{}).UnmarshalLogs(b)
+				if err != nil {
+					panic(err)
+				}
+				return d
+			},
+			mutate: func(d any, site int, tag string) {
+				ld := d.(plog.Logs)
+				rls := ld.ResourceLogs()
+				first := rls.At(0).ScopeLogs().At(0).LogRecords().At(0)
+				switch site {
+				case 0:
+					rls.At(0).Resource().Attributes().PutStr(tag, "1")
+				case 1:
+					rls.At(rls.Len() - 1).ScopeLogs().At(0).Scope().Attributes().PutStr(tag, "1")
+				case 2:
+					mustMap(first.Attributes(), "nest").PutStr(tag, "1")
+				case 3:
+					lrs := rls.At(rls.Len() - 1).ScopeLogs().At(0).LogRecords()
+					lrs.At(lrs.Len() - 1).Body().SetStr(tag)
+				case 4:
+					rl := rls.AppendEmpty()
+					rl.Resource().Attributes().PutStr(tag, "1")
+					rl.ScopeLogs().AppendEmpty().LogRecords().AppendEmpty().Body().SetStr("n")
+				default:
+					mustSlice(first.Attributes(), "arr").AppendEmpty().SetStr(tag)
+				}
+			},
+			markRO: func(d any) { d.(plog.Logs).MarkReadOnly() },
+			isRO:   func(d any) bool { return d.(plog.Logs).IsReadOnly() },
 			build: func(caps []bool, cb func(int, any) error) (func(context.Context, any) error, bool) {
 				var cs []consumer.Logs
 				for i, m := range caps {
@@ -66,17 +171,94 @@ func adapters() []sigAdapter {
 		},
 		{
 			name: "metrics",
-			newData: func() any {
+			newData: func(seed uint64) any {
+				r := c06Rand(seed)
 				md := pmetric.NewMetrics()
-				rm := md.ResourceMetrics().AppendEmpty()
-				rm.Resource().Attributes().PutStr("k", "v")
-				rm.ScopeMetrics().AppendEmpty().Metrics().AppendEmpty().SetEmptyGauge().DataPoints().AppendEmpty().SetIntValue(1)
+				for ri, nr := 0, 1+r.IntN(3); ri < nr; ri++ {
+					rm := md.ResourceMetrics().AppendEmpty()
+					fillAttrs(rm.Resource().Attributes(), r, false)
+					for si, ns := 0, 1+r.IntN(2); si < ns; si++ {
+						sm := rm.ScopeMetrics().AppendEmpty()
+						fillAttrs(sm.Scope().Attributes(), r, false)
+						for mi, nm := 0, 2+r.IntN(3); mi < nm; mi++ {
+							m := sm.Metrics().AppendEmpty()
+							m.SetName(fmt.Sprintf("m%d", mi))
+							kind := r.IntN(5)
+							if mi == 0 {
+								kind = 0
+							} else if mi == 1 {
+								kind = 2
+							}
+							anch := ri == 0 && si == 0 && mi == 0
+							switch kind {
+							case 0:
+								dp := m.SetEmptyGauge().DataPoints().AppendEmpty()
+								dp.SetIntValue(int64(r.IntN(100)))
+								fillAttrs(dp.Attributes(), r, anch)
+								ex := dp.Exemplars().AppendEmpty()
+								ex.SetDoubleValue(1.5)
+								fillAttrs(ex.FilteredAttributes(), r, false)
+							case 1:
+								s := m.SetEmptySum()
+								s.SetIsMonotonic(r.IntN(2) == 0)
+								s.SetAggregationTemporality(pmetric.AggregationTemporalityCumulative)
+								dp := s.DataPoints().AppendEmpty()
+								dp.SetDoubleValue(float64(r.IntN(100)) / 4)
+								fillAttrs(dp.Attributes(), r, false)
+							case 2:
+								dp := m.SetEmptyHistogram().DataPoints().AppendEmpty()
+								dp.SetCount(uint64(r.IntN(50)))
+								dp.BucketCounts().FromRaw([]uint64{uint64(r.IntN(9)), uint64(r.IntN(9))})
+								dp.ExplicitBounds().FromRaw([]float64{1, 2})
+								fillAttrs(dp.Attributes(), r, false)
+							case 3:
+								dp := m.SetEmptyExponentialHistogram().DataPoints().AppendEmpty()
+								dp.SetScale(int32(r.IntN(4)))
+								dp.Positive().BucketCounts().FromRaw([]uint64{1, uint64(r.IntN(9))})
+								fillAttrs(dp.Attributes(), r, false)
+							default:
+								dp := m.SetEmptySummary().DataPoints().AppendEmpty()
+								dp.SetSum(float64(r.IntN(100)))
+								dp.QuantileValues().AppendEmpty().SetQuantile(0.5)
+								fillAttrs(dp.Attributes(), r, false)
+							}
+						}
+					}
+				}
 				return md
 			},
 			marshal: func(d any) []byte { b, _ := (&pmetric.ProtoMarshaler{}).MarshalMetrics(d.(pmetric.Metrics)); return b },
-			attrs:   func(d any) pcommon.Map { return d.(pmetric.Metrics).ResourceMetrics().At(0).Resource().Attributes() },
-			markRO:  func(d any) { d.(pmetric.Metrics).MarkReadOnly() },
-			isRO:    func(d any) bool { return d.(pmetric.Metrics).IsReadOnly() },
+			unmarshal: func(b []byte) any {
+				d, err := (&pmetric.ProtoUnmarshaler{}).UnmarshalMetrics(b)
+				if err != nil {
+					panic(err)
+				}
+				return d
+			},
+			mutate: func(d any, site int, tag string) {
+				md := d.(pmetric.Metrics)
+				rms := md.ResourceMetrics()
+				ms0 := rms.At(0).ScopeMetrics().At(0).Metrics()
+				switch site {
+				case 0:
+					rms.At(0).Resource().Attributes().PutStr(tag, "1")
+				case 1:
+					rms.At(rms.Len() - 1).ScopeMetrics().At(0).Scope().Attributes().PutStr(tag, "1")
+				case 2:
+					mustMap(ms0.At(0).Gauge().DataPoints().At(0).Attributes(), "nest").PutStr(tag, "1")
+				case 3:
+					ms := rms.At(rms.Len() - 1).ScopeMetrics().At(0).Metrics()
+					ms.At(ms.Len() - 1).SetDescription(tag)
+				case 4:
+					rm := rms.AppendEmpty()
+					rm.Resource().Attributes().PutStr(tag, "1")
+					rm.ScopeMetrics().AppendEmpty().Metrics().AppendEmpty().SetEmptyGauge().DataPoints().AppendEmpty().SetIntValue(1)
+				default:
+					ms0.At(1).Histogram().DataPoints().At(0).BucketCounts().Append(uint64(len(tag)) + 7)
+				}
+			},
+			markRO: func(d any) { d.(pmetric.Metrics).MarkReadOnly() },
+			isRO:   func(d any) bool { return d.(pmetric.Metrics).IsReadOnly() },
 			build: func(caps []bool, cb func(int, any) error) (func(context.Context, any) error, bool) {
 				var cs []consumer.Metrics
 				for i, m := range caps {
@@ -91,17 +273,67 @@ func adapters() []sigAdapter {
 		},
 		{
 			name: "traces",
-			newData: func() any {
+			newData: func(seed uint64) any {
+				r := c06Rand(seed)
 				td := ptrace.NewTraces()
-				rs := td.ResourceSpans().AppendEmpty()
-				rs.Resource().Attributes().PutStr("k", "v")
-				rs.ScopeSpans().AppendEmpty().Spans().AppendEmpty().SetName("s")
+				for ri, nr := 0, 1+r.IntN(3); ri < nr; ri++ {
+					rs := td.ResourceSpans().AppendEmpty()
+					fillAttrs(rs.Resource().Attributes(), r, false)
+					for si, ns := 0, 1+r.IntN(2); si < ns; si++ {
+						ss := rs.ScopeSpans().AppendEmpty()
+						fillAttrs(ss.Scope().Attributes(), r, false)
+						for pi, np := 0, 1+r.IntN(3); pi < np; pi++ {
+							sp := ss.Spans().AppendEmpty()
+							sp.SetName(fmt.Sprintf("span%d", pi))
+							sp.SetTraceID(pcommon.TraceID{1, byte(r.IntN(256)), 3})
+							sp.SetSpanID(pcommon.SpanID{byte(1 + r.IntN(200))})
+							sp.TraceState().FromRaw("a=b")
+							fillAttrs(sp.Attributes(), r, ri == 0 && si == 0 && pi == 0)
+							for ei, ne := 0, r.IntN(3); ei < ne; ei++ {
+								ev := sp.Events().AppendEmpty()
+								ev.SetName(fmt.Sprintf("ev%d", ei))
+								fillAttrs(ev.Attributes(), r, false)
+							}
+							if r.IntN(2) == 0 {
+								fillAttrs(sp.Links().AppendEmpty().Attributes(), r, false)
+							}
+						}
+					}
+				}
 				return td
 			},
 			marshal: func(d any) []byte { b, _ := (&ptrace.ProtoMarshaler{}).MarshalTraces(d.(ptrace.Traces)); return b },
-			attrs:   func(d any) pcommon.Map { return d.(ptrace.Traces).ResourceSpans().At(0).Resource().Attributes() },
-			markRO:  func(d any) { d.(ptrace.Traces).MarkReadOnly() },
-			isRO:    func(d any) bool { return d.(ptrace.Traces).IsReadOnly() },
+			unmarshal: func(b []byte) any {
+				d, err := (&ptrace.ProtoUnmarshaler{}).UnmarshalTraces(b)
+				if err != nil {
+					panic(err)
+				}
+				return d
+			},
+			mutate: func(d any, site int, tag string) {
+				td := d.(ptrace.Traces)
+				rss := td.ResourceSpans()
+				first := rss.At(0).ScopeSpans().At(0).Spans().At(0)
+				switch site {
+				case 0:
+					rss.At(0).Resource().Attributes().PutStr(tag, "1")
+				case 1:
+					rss.At(rss.Len() - 1).ScopeSpans().At(0).Scope().Attributes().PutStr(tag, "1")
+				case 2:
+					mustMap(first.Attributes(), "nest").PutStr(tag, "1")
+				case 3:
+					sps := rss.At(rss.Len() - 1).ScopeSpans().At(0).Spans()
+					sps.At(sps.Len() - 1).SetName(tag)
+				case 4:
+					rs := rss.AppendEmpty()
+					rs.Resource().Attributes().PutStr(tag, "1")
+					rs.ScopeSpans().AppendEmpty().Spans().AppendEmpty().SetName("n")
+				default:
+					first.Events().AppendEmpty().SetName(tag)
+				}
+			},
+			markRO: func(d any) { d.(ptrace.Traces).MarkReadOnly() },
+			isRO:   func(d any) bool { return d.(ptrace.Traces).IsReadOnly() },
 			build: func(caps []bool, cb func(int, any) error) (func(context.Context, any) error, bool) {
 				var cs []consumer.Traces
 				for i, m := range caps {
@@ -116,17 +348,68 @@ func adapters() []sigAdapter {
 		},
 		{
 			name: "profiles",
-			newData: func() any {
+			newData: func(seed uint64) any {
+				r := c06Rand(seed)
 				pd := pprofile.NewProfiles()
-				rp := pd.ResourceProfiles().AppendEmpty()
-				rp.Resource().Attributes().PutStr("k", "v")
-				rp.ScopeProfiles().AppendEmpty().Profiles().AppendEmpty().Sample().AppendEmpty()
+				for ri, nr := 0, 1+r.IntN(3); ri < nr; ri++ {
+					rp := pd.ResourceProfiles().AppendEmpty()
+					fillAttrs(rp.Resource().Attributes(), r, false)
+					for si, ns := 0, 1+r.IntN(2); si < ns; si++ {
+						sp := rp.ScopeProfiles().AppendEmpty()
+						fillAttrs(sp.Scope().Attributes(), r, false)
+						for pi, np := 0, 1+r.IntN(2); pi < np; pi++ {
+							p := sp.Profiles().AppendEmpty()
+							p.SetProfileID(pprofile.ProfileID{byte(1 + r.IntN(200)), 2})
+							p.StringTable().FromRaw([]string{"", fmt.Sprintf("f%d", r.IntN(100))})
+							p.OriginalPayload().FromRaw([]byte{byte(r.IntN(256))})
+							at := p.AttributeTable().AppendEmpty()
+							at.SetKey("tab")
+							fillValue(at.Value().SetEmptyMap().PutEmpty("in"), r, 1)
+							for xi, nx := 0, 1+r.IntN(3); xi < nx; xi++ {
+								s := p.Sample().AppendEmpty()
+								s.Value().FromRaw([]int64{int64(r.IntN(50)), int64(xi)})
+								s.TimestampsUnixNano().FromRaw([]uint64{uint64(r.IntN(1000))})
+							}
+							p.LocationTable().AppendEmpty().Line().AppendEmpty().SetLine(int64(r.IntN(500)))
+							p.FunctionTable().AppendEmpty().SetNameStrindex(1)
+						}
+					}
+				}
 				return pd
 			},
 			marshal: func(d any) []byte { b, _ := (&pprofile.ProtoMarshaler{}).MarshalProfiles(d.(pprofile.Profiles)); return b },
-			attrs:   func(d any) pcommon.Map { return d.(pprofile.Profiles).ResourceProfiles().At(0).Resource().Attributes() },
-			markRO:  func(d any) { d.(pprofile.Profiles).MarkReadOnly() },
-			isRO:    func(d any) bool { return d.(pprofile.Profiles).IsReadOnly() },
+			unmarshal: func(b []byte) any {
+				d, err := (&pprofile.ProtoUnmarshaler{}).UnmarshalProfiles(b)
+				if err != nil {
+					panic(err)
+				}
+				return d
+			},
+			mutate: func(d any, site int, tag string) {
+				pd := d.(pprofile.Profiles)
+				rps := pd.ResourceProfiles()
+				first := rps.At(0).ScopeProfiles().At(0).Profiles().At(0)
+				switch site {
+				case 0:
+					rps.At(0).Resource().Attributes().PutStr(tag, "1")
+				case 1:
+					rps.At(rps.Len() - 1).ScopeProfiles().At(0).Scope().Attributes().PutStr(tag, "1")
+				case 2:
+					first.AttributeTable().At(0).Value().Map().PutStr(tag, "1")
+				case 3:
+					ps := rps.At(rps.Len() - 1).ScopeProfiles().At(0).Profiles()
+					ps.At(ps.Len() - 1).SetOriginalPayloadFormat(tag)
+				case 4:
+					rp := rps.AppendEmpty()
+					rp.Resource().Attributes().PutStr(tag, "1")
+					rp.ScopeProfiles().AppendEmpty().Profiles().AppendEmpty().SetOriginalPayloadFormat("n")
+				default:
+					first.Sample().At(0).Value().Append(int64(len(tag)) + 7)
+					first.StringTable().Append(tag)
+				}
+			},
+			markRO: func(d any) { d.(pprofile.Profiles).MarkReadOnly() },
+			isRO:   func(d any) bool { return d.(pprofile.Profiles).IsReadOnly() },
 			build: func(caps []bool, cb func(int, any) error) (func(context.Context, any) error, bool) {
 				var cs []xconsumer.Profiles
 				for i, m := range caps {
@@ -157,38 +440,33 @@ func bits(bs []bool) string {
 	return sb.String()
 }
 
-// tryWrite writes a tag through the public API; reports whether it panicked.
-func tryWrite(m pcommon.Map, tag string) (panicked bool) {
+// tryMutate mutates through the public API at the given site; reports whether it panicked.
+func tryMutate(ad sigAdapter, d any, site int, tag string) (panicked bool) {
 	defer func() {
-		if recover() != nil {
+		if r := recover(); r != nil {
+			if str, ok := r.(string); ok && strings.HasPrefix(str, "harness:") {
+				panic(r)
+			}
 			panicked = true
 		}
 	}()
-	m.PutStr(tag, "1")
+	ad.mutate(d, site, tag)
 	return false
-}
-
-func tagsOf(m pcommon.Map) string {
-	var ks []string
-	m.Range(func(k string, _ pcommon.Value) bool {
-		if k != "k" {
-			ks = append(ks, k)
-		}
-		return true
-	})
-	sort.Strings(ks)
-	return strings.Join(ks, ",")
 }
 
 // one fan-out run on the real code; writes op + obs lines.
 // cancelAt: the consumer with this index cancels the request context while it is being served (and, if it fails, returns
 // the context's error): every other consumer must still be invoked ("even if an earlier one failed"); -1 = never.
-func runFanCase(out *vOut, ad sigAdapter, caps, fail, syncw []bool, inputRO bool, undecl int, cancelAt int) {
+// seed selects the payload; sites[2*i] / sites[2*i+1] are the places where consumer i writes during / after its call.
+func runFanCase(out *vOut, ad sigAdapter, caps, fail, syncw []bool, inputRO bool, undecl int, cancelAt int, seed uint64, sites []int) {
 	out.Linef("op fan sig=%s caps=%s ro=%d fail=%s syncw=%s undecl=%d cancel=%d", ad.name, bits(caps), vB(inputRO), bits(fail), bits(syncw), undecl, cancelAt)
 	ctx, cancel := context.WithCancel(context.Background())
 	defer cancel()
-	data := ad.newData()
+	data := ad.newData(seed)
 	sent := ad.marshal(data)
+	if !bytes.Equal(ad.marshal(ad.unmarshal(sent)), sent) {
+		panic("harness: payload is not stable under unmarshal+marshal")
+	}
 	if inputRO {
 		ad.markRO(data)
 	}
@@ -212,7 +490,7 @@ func runFanCase(out *vOut, ad sigAdapter, caps, fail, syncw []bool, inputRO bool
 		eq := bytes.Equal(ad.marshal(d), sent)
 		panicked := false
 		if (caps[i] && syncw[i]) || i == undecl {
-			panicked = tryWrite(ad.attrs(d), fmt.Sprintf("w%d", i))
+			panicked = tryMutate(ad, d, sites[2*i], fmt.Sprintf("w%d", i))
 		}
 		out.Linef("obs call %d %s ro=%d eq=%d panic=%d", i, obj, vB(ad.isRO(d)), vB(eq), vB(panicked))
 		// direct oracles
@@ -248,7 +526,7 @@ func runFanCase(out *vOut, ad sigAdapter, caps, fail, syncw []bool, inputRO bool
 	// asynchronous writes after everyone returned: every declared mutator writes again
 	for i, m := range caps {
 		if m && held[i] != nil {
-			tryWrite(ad.attrs(held[i]), fmt.Sprintf("a%d", i))
+			tryMutate(ad, held[i], sites[2*i+1], fmt.Sprintf("a%d", i))
 		}
 	}
 	// what everyone holds now
@@ -258,20 +536,23 @@ func runFanCase(out *vOut, ad sigAdapter, caps, fail, syncw []bool, inputRO bool
 			continue
 		}
 		if m {
-			want := fmt.Sprintf("a%d", i)
+			// a mutating consumer's object must hold exactly what was sent plus this consumer's OWN writes: replay them on a
+			// private copy decoded from the sent bytes
+			want := ad.unmarshal(sent)
 			if syncw[i] {
-				want += fmt.Sprintf(",w%d", i)
+				ad.mutate(want, sites[2*i], fmt.Sprintf("w%d", i))
 			}
-			got := tagsOf(ad.attrs(held[i]))
-			out.Linef("obs after %d excl=%d", i, vB(got == want))
-			if got != want {
-				out.Linef("viol sig=C06/fanout/mutator-object-not-exclusive consumer=%d tags=%s signal=%s", i, got, ad.name)
+			ad.mutate(want, sites[2*i+1], fmt.Sprintf("a%d", i))
+			excl := bytes.Equal(ad.marshal(held[i]), ad.marshal(want))
+			out.Linef("obs after %d excl=%d", i, vB(excl))
+			if !excl {
+				out.Linef("viol sig=C06/fanout/mutator-object-not-exclusive consumer=%d sites=%d,%d signal=%s", i, sites[2*i], sites[2*i+1], ad.name)
 			}
 		} else {
 			eq := bytes.Equal(ad.marshal(held[i]), sent)
 			out.Linef("obs after %d eq=%d", i, vB(eq))
 			if !eq && i != undecl {
-				out.Linef("viol sig=C06/fanout/readonly-consumer-sees-foreign-change consumer=%d tags=%s signal=%s", i, tagsOf(ad.attrs(held[i])), ad.name)
+				out.Linef("viol sig=C06/fanout/readonly-consumer-sees-foreign-change consumer=%d signal=%s", i, ad.name)
 			}
 		}
 	}
@@ -325,9 +606,15 @@ func TestVerifC06Fanout(t *testing.T) {
 		if rnd.IntN(3) == 0 {
 			cancelAt = rnd.IntN(k)
 		}
-		for _, ad := range ads {
-			runFanCase(out, ad, caps, fail, syncw, inputRO, undecl, cancelAt)
+		seed := rnd.Uint64()
+		sites := make([]int, 2*k)
+		for i := range sites {
+			sites[i] = rnd.IntN(nSites)
 		}
+		for _, ad := range ads {
+			runFanCase(out, ad, caps, fail, syncw, inputRO, undecl, cancelAt, seed, sites)
+		}
+		out.Linef("stat site %d", sites[0])
 		if mixed[0] && mixed[1] {
 			out.Linef("nt")
 		}
@@ -361,11 +648,15 @@ func TestVerifC06Fanout(t *testing.T) {
 					for i := range all {
 						all[i] = true
 					}
+					sites := make([]int, 2*k)
+					for i := range sites {
+						sites[i] = (c + 5*i) % nSites
+					}
 					for _, ad := range ads {
 						// in the exhaustive scope the first consumer in the slice cancels the context and fails
 						first := append([]bool{}, none...)
 						first[0] = true
-						runFanCase(out, ad, caps, first, all, inputRO, undecl, 0)
+						runFanCase(out, ad, caps, first, all, inputRO, undecl, 0, uint64(c), sites)
 					}
 					if mask != 0 && mask != 1<<k-1 {
 						out.Linef("nt")
